@@ -367,7 +367,23 @@ func main() {
 			hx.Emit(map[string]any{"error": err.Error()})
 			return
 		}
-		progs := append([]string{}, corpus...)
+		// pinned regression corpus first, on every seed and tier
+		pinnedSrc := map[string]bool{}
+		var progs []string
+		if len(o.Args) > 0 {
+			reg, err := hxsyn.LoadRegress(o.Args[0])
+			if err != nil {
+				hx.Emit(map[string]any{"error": "regress corpus: " + err.Error()})
+				return
+			}
+			for _, r := range reg {
+				if r.Src != "" {
+					progs = append(progs, r.Src)
+					pinnedSrc[r.Src] = true
+				}
+			}
+		}
+		progs = append(progs, corpus...)
 		progs = append(progs, hxsyn.Extra...)
 		r := hx.Rand(o.Seed, 14)
 		base := append(append([]string{}, corpus...), hxsyn.Extra...)
@@ -435,6 +451,9 @@ func main() {
 		}
 		// seed-rotated sample for the in-kernel leg; trees with comments and rare kinds first
 		sort.SliceStable(cands, func(i, j int) bool {
+			if pinnedSrc[cands[i].Src] != pinnedSrc[cands[j].Src] {
+				return pinnedSrc[cands[i].Src] // pinned items are always in the in-kernel sample
+			}
 			hi, hj := fnv.New64a(), fnv.New64a()
 			hi.Write([]byte(fmt.Sprint(o.Seed, cands[i].Src, cands[i].Lang)))
 			hj.Write([]byte(fmt.Sprint(o.Seed, cands[j].Src, cands[j].Lang)))
